@@ -4,6 +4,8 @@ pub mod c02;
 pub mod c05;
 pub mod c06;
 pub mod c10;
+pub mod c11;
+pub mod c14;
 pub mod c15;
 pub mod c17;
 pub mod c18;
@@ -19,6 +21,8 @@ pub fn run(ctx: &Ctx) -> bool {
         "C05" => c05::run(ctx),
         "C06" => c06::run(ctx),
         "C10" => c10::run(ctx),
+        "C11" => c11::run(ctx),
+        "C14" => c14::run(ctx),
         "C15" => c15::run(ctx),
         "C17" => c17::run(ctx),
         "C18" => c18::run(ctx),
